@@ -415,16 +415,23 @@ def fam_bad_later(tier):
 
 
 def fam_big(tier):
-    """responses larger than a segment / than the client's read buffer / than the proxy's 64 KiB relay buffer"""
+    """responses larger than a segment / than the client's read buffer / than the proxy's 64 KiB relay buffer.
+    With a far-away client (its acknowledgements take 20 ms, the origin's 1 ms) the proxy's write to the client
+    waits for window while the origin's segments pile up, so one read of the relay loop returns many segments
+    (up to the whole 64 KiB buffer)"""
     out = []; k = 0
+    FAR = [20 * MS, MS, MS, MS]
     combos = [(3000, 0, 48, None, 0), (3000, 0, 4096, None, 1000000), (70000, 1400, 48, None, 0), (70000, 20000, 65536, None, 0),
-              (70000, 70000, 1000, 500, 0), (70000, 20000, 65536, None, 1000000), (200000, 65536, 65536, None, 0), (70000, 1475, 4096, 1475, 50000)]
+              (70000, 70000, 1000, 500, 0), (70000, 20000, 65536, None, 1000000), (200000, 65536, 65536, None, 0), (70000, 1475, 4096, 1475, 50000),
+              (70000, 20000, 65536, None, 0, FAR), (200000, 65536, 48, None, 0, FAR), (20000, 20000, 5000, 500, 0, FAR), (300000, 100000, 65536, None, 1000000, FAR)]
     if tier != "quick":
         combos += [(t, ch, cap, mtu, bw) for t in (4097, 65536, 65537, 140000) for ch in (1400, 70000) for cap in (48, 5000, 65536) for mtu in (None, 100) for bw in (0, 1000000)
                    if not (cap == 48 and t > 70000) and not (mtu == 100 and t > 70000)]
-    for (total, chunk, cap, mtu, bw) in combos:
+        combos += [(t, ch, cap, mtu, 0, FAR) for t in (4097, 65536, 65537, 140000) for ch in (1400, 70000) for cap in (48, 65536) for mtu in (None, 500)]
+    for cb in combos:
+        (total, chunk, cap, mtu, bw), lat = cb[:5], (cb[5] if len(cb) > 5 else MS)
         for auth in ("10.0.0.3:8080", "origin.test:8080"):
-            s, ep = fam_base("b%d" % k, auth, 8080, mtu=mtu, bw=bw, tag="big_response_family"); k += 1
+            s, ep = fam_base("b%d" % k, auth, 8080, mtu=mtu, lat=lat, bw=bw, tag="big_response_family"); k += 1
             sk = origin(s, "n2", ep)
             h_acc = "h%d" % (s.nh - 1)      # origin(): h_acc, h_rd are the last two handlers
             if chunk == 0: s.after(h_acc, 20 * MS, ["%s.send %s data=%s" % (sk, s.h(), hx(BODY3000))])
